@@ -469,6 +469,10 @@ def replay_one(case, watch_fs=False, verdict=None):
             policy = sched.PriorityPolicy(pol["order"], [tuple(c) for c in pol["change_points"]])
         else:
             return []
+        # warm-up: point indices were recorded in a process that had run the program before (first executions
+        # take extra lines - memoised type classification, lazily created locks)
+        for _ in range(2):
+            runner.run(sched.PriorityPolicy(pol["order"], [(pol["order"][0], 10**9)]))
         res, hist, final, extra = runner.run(policy)
         ops = build_ops(prog, hist)
         if res["status"] == "deadlock":
